@@ -5,9 +5,15 @@
         → {"out":"ok","nodes":[ids],"edges":[ids]|null,"phantom":[ids]}
     {"f":"edge_positions","H":net,"pos":[[id,[x,y]],…]} → {"out":"ok","pos":[[id,[x,y]|null],…]}
     {"f":"draw","which":"draw|draw_nodes|draw_hyperedges|draw_simplices","cls":…,"H":net,"pos":…,
-     "max_order":null|int,"perm":[…] (optional)}
+     "max_order":null|int,"perm":[…] (optional),
+     "dicts":[[arg,[[id,value],…]],…] (optional: per-ID style dicts in their own order; value = number | colour name)}
         → {"out":"ok","markers":[pt…]|null,"segments":[[id,{"$set":members},a,b]…],
-           "polygons":[[id,{"$set":members},[verts…],strict]…]}  |  {"out":"err:value|err:lib|err:argsort"}
+           "polygons":[[id,{"$set":members},[verts…],strict]…],
+           "styles":[[arg,[value of the k-th marker | line | polygon, in drawing order]],…]}
+        |  {"out":"err:value|err:lib|err:argsort"}
+     (node_* dicts style the markers, dyad_* the lines, edge_* the polygons; values come back as int | "p/q" |
+      {"col":name}; a dict that lacks an element's ID, or a dyad_/edge_ dict for a complex — whose drawn edge IDs
+      are internal — answers unmodelled)
   net = {"nodes":[ids],"edges":[[id,[members in iteration order]],…]}; coordinates are ints or "p/q".
   Ill-typed requests answer bad-op; networks that are not well formed (repeated IDs, None, members that are
   not nodes, a node without a position, a complex that is not closed under faces / has repeated or empty
@@ -99,14 +105,57 @@ def segJson (s : Seg) : Json := Json.arr (edgeJson s.e ++ [ptJson s.a, ptJson s.
 def polyJson (p : Poly) (pos : Pos) : Json :=
   Json.arr (edgeJson p.e ++ [Json.arr (p.verts.map ptJson).toArray, Json.bool (strictAngles (p.e.2.map pos))]).toArray
 
+/-- a style value: JSON number (decimal) or colour name -/
+def svalOfJson? : Json → Option SVal
+  | .num n => some (.num ((n.mantissa : Rat) / ((10 ^ n.exponent : Nat) : Rat)))
+  | .str s => some (.col s)
+  | _ => none
+
+def svalJson : SVal → Json
+  | .num q => ratJson q
+  | .col s => Json.mkObj [("col", Json.str s)]
+
+def sdictOfJson? (j : Json) : Option SDict :=
+  match j with
+  | .arr a => a.toList.mapM (fun p => match p with
+      | .arr #[i, v] => do pure ((← idOfJson? i), (← svalOfJson? v))
+      | _ => none)
+  | _ => none
+
+/-- "dicts": absent → []; [[arg, dict], …] -/
+def dicts? (j : Json) : Option (List (String × SDict)) :=
+  match getField? j "dicts" with
+  | none => some []
+  | some .null => some []
+  | some (.arr a) => a.toList.mapM (fun p => match p with
+      | .arr #[.str arg, d] => do pure (arg, (← sdictOfJson? d))
+      | _ => none)
+  | _ => none
+
+/-- which elements a per-ID argument styles in this call (`none`: outside the model) -/
+def styleOf (c : Cls) (which : String) (h : Net) (m : Int) (pm : List Nat) (arg : String) (d : SDict) :
+    Option (List SVal) :=
+  if !(decide (d.map (·.1)).Nodup) then none
+  else if arg.startsWith "node_" then
+    (if which == "draw" || which == "draw_nodes" then markerStyles h d else none)
+  else if c == .hg && which != "draw_nodes" then
+    (if arg.startsWith "dyad_" then segmentStyles h d
+     else if arg.startsWith "edge_" then polygonStyles h m pm d else none)
+  else none
+
+def stylesJson (l : List (String × List SVal)) : Json :=
+  Json.arr (l.map (fun p => Json.arr #[Json.str p.1, Json.arr (p.2.map svalJson).toArray])).toArray
+
 def errJson : Err → Json
   | .value => out "err:value" | .lib => out "err:lib" | .argsort => out "err:argsort"
 
-def planJson (pos : Pos) (mk : Option (List Pt)) (segs : List Seg) (polys : List Poly) : Json :=
+def planJson (pos : Pos) (st : List (String × List SVal)) (mk : Option (List Pt)) (segs : List Seg)
+    (polys : List Poly) : Json :=
   Json.mkObj [("out", Json.str "ok"),
     ("markers", match mk with | none => Json.null | some l => Json.arr (l.map ptJson).toArray),
     ("segments", Json.arr (segs.map segJson).toArray),
-    ("polygons", Json.arr (polys.map (fun p => polyJson p pos)).toArray)]
+    ("polygons", Json.arr (polys.map (fun p => polyJson p pos)).toArray),
+    ("styles", stylesJson st)]
 
 def handleDraw (j : Json) : Option Json := do
   let which ← getStr? j "which"
@@ -117,20 +166,27 @@ def handleDraw (j : Json) : Option Json := do
   let perm ← perm? j
   if !wfB h || !(h.nodes.all (fun n => keys.contains n)) || (c == .sc && !scB h) then pure unmodelled else
   if (match mo with | some m => decide (m < 0) | none => false) then pure unmodelled else
+  let ds ← dicts? j
+  -- the maximum order / argsort in force inside draw_hyperedges (`draw` replaces a falsy max_order first)
+  let m : Int := if which == "draw" then effOrder h (truthy mo) else effOrder h mo
+  let pm := effPerm h m perm
+  match ds.mapM (fun p => (styleOf c which h m pm p.1 p.2).map (fun vs => (p.1, vs))) with
+  | none => pure unmodelled
+  | some st =>
   match which, c with
-  | "draw_nodes", _ => pure (planJson pos (some (markers h pos)) [] [])
+  | "draw_nodes", _ => pure (planJson pos st (some (markers h pos)) [] [])
   | "draw", _ =>
     pure (match draw c h pos mo perm with
       | .error e => errJson e
-      | .ok p => planJson pos (some p.markers) p.segments p.polygons)
+      | .ok p => planJson pos st (some p.markers) p.segments p.polygons)
   | "draw_hyperedges", .hg =>
     pure (match drawHyperedges h pos mo perm with
       | none => errJson .argsort
-      | some r => planJson pos none r.1 r.2)
+      | some r => planJson pos st none r.1 r.2)
   | "draw_simplices", .sc =>
     pure (match drawSimplices h pos mo with
       | .error e => errJson e
-      | .ok r => planJson pos none r.1 r.2)
+      | .ok r => planJson pos st none r.1 r.2)
   | _, _ => none
 
 def handleLayout (j : Json) : Option Json := do
